@@ -167,7 +167,7 @@ func buildReal(dir string, seed uint64, k int) (*realPop, error) {
 		want func(free string) string
 	}{
 		{x1, author, func(string) string { return string(x1.Id())[:3] }}, // collides with X1's own first comment
-		{x1, two, func(string) string { return "" }},                      // free: defines the secondary prefix the others aim at
+		{x1, two, func(string) string { return "" }},                     // free: defines the secondary prefix the others aim at
 		{x2, author, func(free string) string { return free[:3] }},       // same 3 secondary characters in a bug sharing 3 primary characters
 		{x3, one, func(free string) string { return free[:1] }},
 		{bd2, author, func(free string) string { return free[:2] }},
